@@ -108,7 +108,7 @@ func (p *Unsubscribe) UnmarshalBinary(data []byte) error {
 		var f wstring
 		b.get(&f)
 		p.filters = append(p.filters, f)
-		if b.i == len(data) {
+		if b.err != nil || b.i == len(data) {
 			break
 		}
 	}
